@@ -70,3 +70,27 @@ impl<K, V> VerifDrainOrder for IndexMap<K, V> {
 impl<K, V> VerifDrainOrder for BTreeMap<K, V> {
   fn verif_force_drain_order(&mut self, _site: &'static str) {}
 }
+
+/// A list that was collected by iterating a hash map (so its order is the
+/// map's iteration order): sorts it by `key` and applies the permutation the
+/// callback chooses. Any order is one the unhooked program can produce.
+pub fn verif_force_collected_order<T, K: Ord>(
+  site: &'static str,
+  items: &mut Vec<T>,
+  key: impl Fn(&T) -> K,
+) {
+  let n = items.len();
+  if n < 2 {
+    return;
+  }
+  let perm = ORDER_CB.with(|c| c.borrow_mut().as_mut().map(|cb| cb(site, n)));
+  let Some(perm) = perm else {
+    return;
+  };
+  assert_eq!(perm.len(), n, "verif hook: bad permutation length");
+  items.sort_by_key(|a| key(a));
+  let mut taken: Vec<Option<T>> = std::mem::take(items).into_iter().map(Some).collect();
+  for i in perm {
+    items.push(taken[i].take().expect("verif hook: not a permutation"));
+  }
+}
